@@ -49,6 +49,9 @@ def make_cell(kind):
         c.set("eK", -85.0)
     elif kind == "D":     # chain with ncomp 2 everywhere, CaL
         c = jx.Cell([jx.Branch([comp] * 2)] * 2, parents=[-1, 0]); c.insert(CaL()); c.insert(Leak()); c.set("capacitance", 1.7)
+    elif kind == "G":     # same per-branch compartment counts as B, different tree shape
+        c = jx.Cell([jx.Branch([comp] * 2)] * 5, parents=[-1, 0, 0, 2, 2]); c.insert(Leak()); c.branch(2).insert(K()); c.branch([3, 4]).insert(Na())
+        c.branch(3).set("radius", 0.6); c.branch(1).set("length", 31.0)
     elif kind in ("E", "F"):   # sibling branches with different compartment counts: the custom solvers pad every level to its largest branch
         nc = (2, 3, 1) if kind == "E" else (2, 3, 3)
         c = jx.Cell([jx.Branch([comp] * n) for n in nc], parents=[-1, 0, 0]); c.insert(Leak()); c.branch(1).insert(HH() if kind == "E" else K())
@@ -227,7 +230,7 @@ def run_instance(inst):
 def families():
     quick = harness.tier() == "quick"
     combos = [("bwd_euler", "jaxley.stone"), ("crank_nicolson", "jaxley.thomas")] + ([] if quick else [("bwd_euler", "jaxley.thomas"), ("bwd_euler", "jax.sparse")])
-    nets = [["A", "B"], ["B", "A"], ["C", "A"], ["A", "D", "B"], ["E", "F"], ["F", "E"]] + ([] if quick else [["D", "C"], ["B", "C", "A"], ["A", "A"], ["C", "B"], ["E", "E"], ["E", "F", "E"], ["E", "A"]])
+    nets = [["A", "B"], ["B", "A"], ["C", "A"], ["A", "D", "B"], ["E", "F"], ["F", "E"], ["B", "G"]] + ([] if quick else [["G", "B"], ["G", "A", "B"], ["D", "C"], ["B", "C", "A"], ["A", "A"], ["C", "B"], ["E", "E"], ["E", "F", "E"], ["E", "A"]])
     insts = []
     for s, v in combos:
         for n in nets:
@@ -251,7 +254,7 @@ def main():
                        "sibling orders; compared node by node for all symbolic table entries; table preservation is a concrete side-check",
         "evaluations": len(insts), "distinct_nontrivial": c.get("instances_encoded", 0),
         "rule": "instances = network composition (ordered list of heterogeneous cells A-D) or wrapper/sibling scenario x (solver, backend)",
-        "bounds": {"steps": 2, "cells per network": "<= 3", "cell kinds": "A: Y-cell with HH on one branch; B: 5-branch two-level tree with K/Na sharing vt; C: single branch Km+K sharing eK; D: chain with CaL; E/F: Y-cells whose sibling branches have 3 and 1 (3 and 3) compartments (padding inside a non-last cell)"},
+        "bounds": {"steps": 2, "cells per network": "<= 3", "cell kinds": "A: Y-cell with HH on one branch; B: 5-branch two-level tree with K/Na sharing vt; C: single branch Km+K sharing eK; D: chain with CaL; G: B's compartment layout on a different tree; E/F: Y-cells whose sibling branches have 3 and 1 (3 and 3) compartments (padding inside a non-last cell)"},
         "outside": ["jax.sparse for network-vs-cell (different matrix sizes; covered by C01's network instances)", "rounding"],
     }
     return rep.finish(cov, assumptions=["exact real arithmetic", "networks whose cells differ in per-level compartment counts are refused by the custom solvers (allowed, counted)"])
